@@ -1009,15 +1009,24 @@ theorem findVersion_first {fs : FS} {ns v : Str} {path : List Str} {f : Found}
   split_ifs at h
   exact findInDirs_some fs _ path f h
 
-theorem findFile_fileAt {fs : FS} {ns : Str} {ver : Option Str} {path : List Str} {f : Found}
+theorem findFile_fileAt {fs : FS} {ns : Str} {ver : Option Str} {path : List Str} {f : Mapped}
     (h : findFile fs ns ver path = some f) : FileAt fs f.path f.hdr := by
   unfold findFile at h
   cases ver with
-  | some v => exact (findVersion_first h).fileAt
+  | some v =>
+    simp only [Option.map_eq_some_iff] at h
+    obtain ⟨g, hg, rfl⟩ := h
+    exact (findVersion_first hg).fileAt
   | none =>
     simp only [Option.map_eq_some_iff] at h
     obtain ⟨c, hc, rfl⟩ := h
     exact matches_fileAt fs ns path 0 c (findLatest_elected fs ns path c hc).1
+
+theorem findFile_version {fs : FS} {ns v : Str} {path : List Str} {f : Mapped}
+    (h : findFile fs ns (some v) path = some f) : f.version = v := by
+  simp only [findFile, Option.map_eq_some_iff] at h
+  obtain ⟨g, _, rfl⟩ := h
+  rfl
 
 /-- one `require_internal` under the invariant, for acyclic dependencies -/
 theorem require_post {fs : FS} {rank : Str → Nat} (hr : Ranked fs rank) :
@@ -1091,13 +1100,14 @@ theorem require_post {fs : FS} {rank : Str → Nat} (hr : Ranked fs rank) :
           refine ⟨hns', ?_, fun hl => (h2 hl).imp (fun l h => ⟨h.1, h.2.1⟩)⟩
           intro v hv
           subst hv
+          have hfv := findFile_version hfile
+          rw [hfv] at hver
           simpa using hver
 
 
-/-- one `g_irepository_load_typelib` under the invariant and the guard -/
+/-- one `g_irepository_load_typelib` under the invariant -/
 theorem load_post {fs : FS} {rank : Str → Nat} (hr : Ranked fs rank) (fuel : Nat) (s : Repo) (hdr : Hdr)
     (lazy : Bool) (hinv : Inv fs s) (hrank : HdrRanked rank hdr)
-    (hguard : ∀ v, getRegisteredStatus s hdr.ns (some hdr.ver) lazy ≠ .conflict v)
     (hub : (loadTypelib fs fuel s hdr lazy).1.staleKey = false) :
     Post fs rank s (loadTypelib fs fuel s hdr lazy).1 (rank hdr.ns + 1) := by
   have hreqOK : ReqOK fs rank (fun s' dn dv => requireInternal fs fuel s' dn (some dv) false s'.searchPath) := by
@@ -1119,7 +1129,7 @@ theorem load_post {fs : FS} {rank : Str → Nat} (hr : Ranked fs rank) (fuel : N
   simp only [hsame] at hub ⊢
   cases hst : getRegisteredStatus s hdr.ns (some hdr.ver) lazy with
   | found t => simp only [hst] at hub ⊢; exact hp0
-  | conflict v => exact absurd hst (hguard v)
+  | conflict v => simp only [hst] at hub ⊢; exact hp0
   | absent b =>
     simp only [hst] at hub ⊢
     obtain ⟨habsE, habsL⟩ := status_absent hst
@@ -1132,6 +1142,7 @@ theorem load_stale (fs : FS) (fuel : Nat) (s : Repo) (hdr : Hdr) (lazy : Bool) (
   unfold loadTypelib
   simp only
   split
+  · simpa using hs
   · simpa using hs
   · apply register_stale
     · intro s' dn dv hs'; exact require_stale fs fuel s' dn (some dv) false s'.searchPath hs'
@@ -1173,7 +1184,7 @@ theorem step_inv {fs : FS} {rank : Str → Nat} (hr : Ranked fs rank) (fuel : Na
     obtain ⟨hp, _⟩ := require_post hr fuel s ns ver lazy [d] hinv hub
     exact ⟨hp.inv, by simpa [prepends, step, require, requirePrivate] using hp.path⟩
   | load hdr lazy =>
-    have hp := load_post hr fuel s hdr lazy hinv hok.1 hok.2 hub
+    have hp := load_post hr fuel s hdr lazy hinv hok hub
     exact ⟨hp.inv, by simpa [prepends, step, require, requirePrivate] using hp.path⟩
   | query => exact ⟨hinv, by simp [step, prepends]⟩
 
@@ -1293,6 +1304,7 @@ theorem load_path (fs : FS) (fuel : Nat) (s : Repo) (hdr : Hdr) (lazy : Bool) :
   unfold loadTypelib
   simp only
   split
+  · rfl
   · rfl
   · rw [register_path]
     intro s' dn dv; exact require_path fs fuel s' dn (some dv) false s'.searchPath
